@@ -132,7 +132,8 @@ func (p *parser) jumpLength() (int, error) {
 		return length, err
 	}
 
-	if length <= 0 {
+	// A length whose end offset overflows int would index before the buffer.
+	if length <= 0 || offset+length < offset {
 		return length, errors.New("Invalid length")
 	}
 
